@@ -116,6 +116,82 @@ def layout_of_deserialize(fn):
     return check, widths
 
 
+def edb_envelope(repo, name, rel):
+    """the encrypted database's envelope: `HEADER + pickle.dumps(<fields>)`; `deserialize` refuses another header, cuts it off, unpickles
+    and hands the parts to the constructor in the order the constructor stores them"""
+    tree = ast.parse(open(os.path.join(repo, "schemes", rel, "structures.py")).read())
+    cfg_tree = ast.parse(open(os.path.join(repo, "schemes", rel, "config.py")).read())
+    consts = {}
+    for st in cfg_tree.body:
+        if isinstance(st, ast.Assign) and len(st.targets) == 1 and isinstance(st.targets[0], ast.Name) and \
+                isinstance(st.value, ast.Constant) and isinstance(st.value.value, bytes):
+            consts[st.targets[0].id] = st.value.value
+    for cls in tree.body:
+        if not (isinstance(cls, ast.ClassDef) and "SSEEncryptedDatabase" in [getattr(b, "id", "") for b in cls.bases]):
+            continue
+        meths = {m.name: m for m in cls.body if isinstance(m, ast.FunctionDef)}
+        ser, des, init = meths.get("serialize"), meths.get("deserialize"), meths.get("__init__")
+        if not (ser and des and init):
+            raise Unrecognised(f"{name}: encrypted database without serialize / deserialize / __init__")
+        # serialize: HEADER + pickle.dumps(X | (X, Y, …))
+        hdr, fields = None, None
+        for n in ast.walk(ser):
+            if isinstance(n, ast.BinOp) and isinstance(n.op, ast.Add) and isinstance(n.left, ast.Name) and isinstance(n.right, ast.Call) \
+                    and getattr(n.right.func, "attr", None) == "dumps":
+                hdr = n.left.id
+                a = n.right.args[0]
+                elts = a.elts if isinstance(a, ast.Tuple) else [a]
+                if not all(isinstance(x, ast.Attribute) and isinstance(x.value, ast.Name) and x.value.id == "self" for x in elts):
+                    raise Unrecognised(f"{name}: pickled payload")
+                fields = [x.attr for x in elts]
+        if hdr is None or hdr not in consts:
+            raise Unrecognised(f"{name}: serialize is not HEADER + pickle.dumps(...)")
+        xb = des.args.args[1].arg
+        # deserialize: `if xbytes[:len(H)] != H: raise`, payload = xbytes[len(H):]
+        def is_len_h(e):
+            return isinstance(e, ast.Call) and getattr(e.func, "id", None) == "len" and isinstance(e.args[0], ast.Name) and e.args[0].id == hdr
+        checks = False
+        cut = False
+        for n in ast.walk(des):
+            if isinstance(n, ast.If) and isinstance(n.test, ast.Compare) and isinstance(n.test.ops[0], ast.NotEq) and \
+                    isinstance(n.test.left, ast.Subscript) and isinstance(n.test.left.value, ast.Name) and n.test.left.value.id == xb and \
+                    isinstance(n.test.left.slice, ast.Slice) and n.test.left.slice.lower is None and is_len_h(n.test.left.slice.upper) and \
+                    isinstance(n.test.comparators[0], ast.Name) and n.test.comparators[0].id == hdr and any(isinstance(b, ast.Raise) for b in n.body):
+                checks = True
+            if isinstance(n, ast.Subscript) and isinstance(n.value, ast.Name) and n.value.id == xb and isinstance(n.slice, ast.Slice) and \
+                    n.slice.upper is None and n.slice.lower is not None and is_len_h(n.slice.lower):
+                cut = True
+        # the constructor call: cls(a, b, …) with a, b the unpickled parts in order; __init__ stores parameter i in attribute i
+        init_params = [a.arg for a in init.args.args[1:]]
+        stores = {}
+        for n in ast.walk(init):
+            if isinstance(n, ast.Assign) and isinstance(n.targets[0], ast.Attribute) and isinstance(n.targets[0].value, ast.Name) and \
+                    n.targets[0].value.id == "self" and isinstance(n.value, ast.Name):
+                stores[n.value.id] = n.targets[0].attr
+            if isinstance(n, ast.Assign) and isinstance(n.targets[0], ast.Tuple) and isinstance(n.value, ast.Tuple) and \
+                    len(n.targets[0].elts) == len(n.value.elts):
+                for tg, v in zip(n.targets[0].elts, n.value.elts):          # self.A, self.T = A, T
+                    if isinstance(tg, ast.Attribute) and isinstance(tg.value, ast.Name) and tg.value.id == "self" and isinstance(v, ast.Name):
+                        stores[v.id] = tg.attr
+        unpack, call = None, None
+        for n in ast.walk(des):
+            if isinstance(n, ast.Assign) and isinstance(n.value, ast.Call) and getattr(n.value.func, "attr", None) == "loads":
+                t = n.targets[0]
+                unpack = [x.id for x in t.elts] if isinstance(t, ast.Tuple) else [t.id]
+            if isinstance(n, ast.Return) and isinstance(n.value, ast.Call) and getattr(n.value.func, "id", None) == "cls":
+                call = [a.id for a in n.value.args if isinstance(a, ast.Name)]
+        if unpack is None or call is None:
+            raise Unrecognised(f"{name}: deserialize of the encrypted database")
+        # attribute that receives the i-th unpickled part
+        got = []
+        for u in unpack:
+            if u not in call:
+                raise Unrecognised(f"{name}: unpickled part {u} is not handed to the constructor")
+            got.append(stores.get(init_params[call.index(u)], "?"))
+        return {"header": consts[hdr], "checks_header": checks and cut, "ser_fields": fields, "deser_fields": got}
+    raise Unrecognised(f"{name}: no encrypted database class")
+
+
 def extract(repo):
     out = {}
     for name, rel in SCHEMES.items():
@@ -156,6 +232,14 @@ def generate(repo, out_path):
         L.append(f"def {name}_{kind}_fields : List String := [" + ", ".join(f'"{x}"' for x in fields) + "]")
         L.append(f"def {name}_{kind}_check (f : String → Int) : Int := {check}")
         L.append(f"def {name}_{kind}_widths (f : String → Int) : List Int := {widths}")
+    env = {}
+    for name, rel in sorted(SCHEMES.items()):
+        e = edb_envelope(repo, name, rel)
+        env[name] = e
+        L.append(f"def {name}_edb_header : List UInt8 := [" + ", ".join(str(b) for b in e["header"]) + "]")
+        L.append(f"def {name}_edb_checks_header : Bool := {'true' if e['checks_header'] else 'false'}")
+        L.append(f"def {name}_edb_ser_fields : List String := [" + ", ".join(f'"{x}"' for x in e["ser_fields"]) + "]")
+        L.append(f"def {name}_edb_deser_fields : List String := [" + ", ".join(f'"{x}"' for x in e["deser_fields"]) + "]")
     L += ["", "end SSEPy.Generated.Wire", ""]
     text = "\n".join(L)
     old = open(out_path).read() if os.path.exists(out_path) else None
